@@ -5,7 +5,7 @@ import json
 import math
 import os
 
-from ..astq import is_name, is_self_attr, kwarg, returns_of, parse_fixture
+from ..astq import conds, facts_of, is_name, is_self_attr, kwarg, parse_fixture, returns_of
 from ..core import AnalysisError, norm, walk_local, dotted
 
 DATA = os.path.join(os.path.dirname(os.path.dirname(os.path.abspath(__file__))), "data", "precedence_obligations.json")
@@ -143,13 +143,7 @@ def run(repo, chk):
         chk.ob("R15.1", "selector.InternedMC.__call__:key-covers-all-fields", f"{kw}.items()" in txt and "sorted(" in txt, call.where,
                f"the key is built from all keyword items in a canonical order (key = {txt})")
     ctor_calls = [c for c in ast.walk(call.node) if isinstance(c, ast.Call) and norm(c.func) == "super().__call__"]
-    guarded = False
-    for c in ctor_calls:
-        cur = getattr(c, "_parent", None)
-        while cur is not None and cur is not call.node:
-            if isinstance(cur, ast.If) and "not in" in norm(cur.test) and "_cache" in norm(cur.test):
-                guarded = True
-            cur = getattr(cur, "_parent", None)
+    guarded = bool(ctor_calls) and all(any(x.endswith(" not in cls._cache") for x in conds(c, call.node)) for c in ctor_calls)
     chk.ob("R15.1", "selector.InternedMC.__call__:construct-only-on-miss", len(ctor_calls) == 1 and guarded, call.where,
            "a new object is constructed only when the key is not cached")
     rets = returns_of(call.node)
@@ -298,7 +292,7 @@ def run(repo, chk):
     for k in need:
         chk.ob("R15.4", f"evaluate.actions:{k}", k in registered, "ptera/selector.py", f"operator shape `{k}` has an action ({registered.get(k, 'none')})")
     ec = repo.func("selector.Evaluator.__call__")
-    chk.ob("R15.4", "selector.Evaluator.__call__:dispatch-by-key", "self.actions.get(key" in norm(ec.node) and "'SYMBOL'" in norm(ec.node),
+    chk.ob("R15.4", "selector.Evaluator.__call__:dispatch-by-key", facts_of(ec).mentions("self.actions.get(key") and facts_of(ec).mentions("'SYMBOL'"),
            ec.where, "dispatch is by ASTNode.key, tokens dispatch to SYMBOL")
     # lexer: whitespace-insensitive operators
     import re._parser as sre
@@ -342,19 +336,19 @@ def run(repo, chk):
             ok = any(isinstance(s, ast.Assign) and norm(s) == "child = child.with_focus()" for s in n.body)
     chk.ob("R15.5", "selector.make_nested_imm:focus-after-last->", ok, ni.where, "the variable standing after `>` is focused")
     gc = repo.func("selector._guarantee_call")
-    t = norm(gc.node)
-    chk.ob("R15.5", "selector._guarantee_call:strip-focus-and-capture", "capture=None" in t and ".without_focus()" in t, gc.where,
+    fgc = facts_of(gc)
+    strip = [c for t, c, n in fgc.items if isinstance(n, ast.Assign) and "capture=None" in t and ".without_focus()" in t]
+    chk.ob("R15.5", "selector._guarantee_call:strip-focus-and-capture", len(strip) == 1 and "isinstance(parent, Element)" in strip[0], gc.where,
            "the function position carries neither focus nor capture name")
     ms = repo.func("selector.make_symbol")
-    t = norm(ms.node)
-    chk.ob("R15.5", "selector.make_symbol:focus-only-at-root", "focus = context == 'root'" in t and "frozenset({1}) if focus else frozenset()" in t, ms.where,
+    chk.ob("R15.5", "selector.make_symbol:focus-only-at-root", facts_of(ms).mentions("tags=frozenset({1}) if context == 'root' else frozenset()"), ms.where,
            "a bare symbol is focused only in the root context (inside parentheses it needs `!`)")
     ma = repo.func("selector.make_as")
-    t = norm(ma.node)
-    chk.ob("R15.5", "selector.make_as:call-alias-focuses-#value-only-at-root", "focus = context == 'root'" in t and "name='#value'" in t and
-           "tags=name.tags or (frozenset({1}) if focus else frozenset())" in t, ma.where,
+    fma = facts_of(ma)
+    chk.ob("R15.5", "selector.make_as:call-alias-focuses-#value-only-at-root",
+           fma.mentions("Element(name='#value', capture=name.name, tags=name.tags or (frozenset({1}) if context == 'root' else frozenset()))"), ma.where,
            "`f() as r` adds the capture #value as r, focused exactly when written at the root (f() as r == f(!#value as r))")
-    chk.ob("R15.5", "selector.make_as:variable-alias-keeps-tags", "return element.clone(capture=name.name, tags=element.tags | name.tags)" in t, ma.where,
+    chk.ob("R15.5", "selector.make_as:variable-alias-keeps-tags", fma.has("return element.clone(capture=name.name, tags=element.tags | name.tags)", exactly=["isinstance(element, Element)"]), ma.where,
            "`x as y` renames the capture and keeps the focus of either side")
     for fname in ("make_nested_imm", "make_call_capture", "make_as", "make_equals"):
         fi_ = repo.func(f"selector.{fname}")
@@ -370,7 +364,7 @@ def run(repo, chk):
         chk.ob("R15.5", f"selector.{fname}:appends-in-source-order", not bad_ and n_ >= 1, fi_.where,
                f"new captures / children are appended after the existing ones ({n_} site(s)): `f(a) > x` and `f(a, !x)` list their captures in the same order" + (f" -- {bad_}" if bad_ else ""))
     mf = repo.func("selector.make_focus")
-    chk.ob("R15.5", "selector.make_focus:!-is-with_focus", "return element.with_focus()" in norm(mf.node), mf.where, "`!x` focuses x")
+    chk.ob("R15.5", "selector.make_focus:!-is-with_focus", facts_of(mf).has("return element.with_focus()", exactly=[]) and len(returns_of(mf.node)) == 1, mf.where, "`!x` focuses x")
 
     # fixtures (table kernel alive): a tower where `as` binds looser than `,` must flip obligations
     t2 = dict(table)
